@@ -67,7 +67,7 @@ public:
         dir = vr::env("VERIF_SCRATCH", "/verif/build/scratch/tmp");
         std::string tag = std::to_string(getpid()) + "-" + std::to_string(++instance());
         scgi_path = dir + "/s" + tag + ".sock"; fcgi_path = dir + "/f" + tag + ".sock";
-        for (int attempt = 0; attempt < 5; attempt++) {
+        for (int attempt = 0; attempt < 8; attempt++) {
             http_port = free_tcp_port();
             std::ostringstream cfg;
             cfg << "{ \"service\": { \"list\": [";
@@ -99,8 +99,10 @@ public:
                     catch (...) { loop_exception = "unknown exception escaped service::run()"; }
                     loop_returned = true; started = 2;
                 });
-                for (int i = 0; i < 5000 && started == 0; i++) usleep(1000);
+                for (int i = 0; i < 60000 && started == 0; i++) usleep(1000);
                 if (started == 1 && !loop_returned) { running = true; usleep(2000); return true; }
+                fprintf(stderr, "fixture: attempt %d failed (started=%d): %s\n", attempt, (int)started, loop_exception.c_str());
+                if (started == 0) srv->shutdown();
                 if (th.joinable()) th.join();
                 srv.reset();
             } catch (std::exception const &e) {
